@@ -142,7 +142,7 @@ partial def pPairN : Nat → Toks → Option (List (D × D) × Toks)
 end
 
 def sortPairs (xs : List (String × String)) : List (String × String) :=
-  xs.mergeSort (fun a b => compare a.1 b.1 != .gt)
+  xs.mergeSort (fun a b => (compare a.1 b.1).then (compare a.2 b.2) != .gt)
 
 mutual
 partial def vText : V → String
@@ -258,9 +258,10 @@ partial def normJ : J → J
 
 def sortedChars (t : List Char) : List Char := t.mergeSort (fun a b => a.toNat ≤ b.toNat)
 
-def handleJson (mode : String) (desc : String) (impl : String) : String :=
+def handleJson (btree : Bool) (mode : String) (desc : String) (impl : String) : String :=
   match pVal (toks desc) with
-  | some (v, []) =>
+  | some (v0, []) =>
+    let v := if btree then sortMaps v0 else v0
     match jsonOf v with
     | .refuse => "refuse\t-\t-"
     | .unmodelled => "?\t-\t-"
@@ -268,7 +269,7 @@ def handleJson (mode : String) (desc : String) (impl : String) : String :=
       let text : Option (List Char) :=
         match mode with
         | "tojson" | "tojson_in_html" => some (tojson (writeJ .jinja j))
-        | "tojson_true" => some (tojson (writeJ (.pretty 2) j))
+        | "tojson_true" => some (tojson (writeJ (.pretty MJ.Gen.tojsonTrueIndent) j))
         | "tojson_kw3" => some (tojson (writeJ (.pretty 3) j))
         | "tojson_0" => some (tojson (writeJ (.pretty 0) j))
         | "auto_json" | "auto_js" => some (writeJ .compact j)
@@ -300,23 +301,25 @@ def handleJparse (h : String) : String :=
     | some j => "ok " ++ hexOfStr (writeJ .compact j)
     | none => "noparse"
 
-def handle (line : String) : String :=
+def handle (btree : Bool) (line : String) : String :=
   let fields := line.splitOn "\t"
   let case := fields.head!
   if case.startsWith "rt " then handleRt (case.drop 3).toString
   else if case.startsWith "x " then handleRt (case.drop 2).toString
   else if case.startsWith "json " then
     match (case.drop 5).toString.splitOn " " with
-    | mode :: rest => handleJson mode (" ".intercalate rest) (fields.getD 1 "")
+    | mode :: rest => handleJson btree mode (" ".intercalate rest) (fields.getD 1 "")
     | [] => "bad-case\t-\t-"
   else if case.startsWith "jparse " then handleJparse (case.drop 7).toString
   else "-"
 
-partial def loop (h : IO.FS.Stream) (out : IO.FS.Stream) : IO Unit := do
+partial def loop (btree : Bool) (h : IO.FS.Stream) (out : IO.FS.Stream) : IO Unit := do
   let line ← h.getLine
   if line.isEmpty then return ()
-  out.putStrLn (handle (line.dropEndWhile (· == '\n')).toString)
-  loop h out
+  out.putStrLn (handle btree (line.dropEndWhile (· == '\n')).toString)
+  loop btree h out
 
-def main : IO Unit := do
-  loop (← IO.getStdin) (← IO.getStdout)
+/-- `drive_c16 [index]`: `index` = the IndexMap build (maps iterate in insertion order); default = the
+BTreeMap build (maps iterate in `Value::cmp` order) -/
+def main (args : List String) : IO Unit := do
+  loop (!args.contains "index") (← IO.getStdin) (← IO.getStdout)
